@@ -32,6 +32,10 @@ CLAIMED = {
    text="Theorems: the extracted row evaluator decides satisfaction of the padded cyclic domain (C05_row_evaluator_exact); the challenge-combined row identity (all five widgets and the public input, combined as compute_quotient_i combines them) is equivalent to the component-wise identities - implied for all challenges, and implying them whenever it holds on an 8x10x8x6 grid of distinct challenge values (root bound C05_roots_all_zero); wire values invariant under the copy permutation make the grand product close for every beta, gamma (C05_grand_product_closes). Partial: the degree test 'len > 7n <=> numerator not divisible by Z_H' and the construction of sigma from the copy classes are argued in DESIGN.md, not mechanised. On every run Prover::prove is compared with the evaluator's verdict on (compiled selectors, instance wires, instance public inputs) plus the copy-class check, over satisfied / one-witness-overridden / raw-selector / full-domain / different-wiring / wrong-size / low-degree-remainder instances; every returned proof is verified.",
    technique="Coq proof (root bound, separation of challenges, permutation product) + differential correspondence of Prover::prove vs the proved row evaluator",
    design="5/C05"),
+ "C01": dict(
+   text="Theorems about the size interplay (padding 6 / blinding degree 6 / next power of two) for ALL constraint counts and SRS degrees: the direct and the compressed route succeed or fail for exactly the same capacities (C01_capacity_equiv, a Galois connection between the two roundings), the trimmed key always covers degree domain+6 (C01_trimmed_key_covers). The end-to-end completeness statement is partial: its algebraic parts are the theorems of C05 (rows, grand product), C19 (transforms) and C20 (commitments). On every run honest circuits of every size within +-8 of each power of two, boundary SRS capacities (model predicts Ok/Err), public-input placements and gadget mixes are compiled by all three routes, proved and verified, with keys and proofs crossed between routes.",
+   technique="Coq proof (capacity arithmetic for all sizes) + size/capacity/route sweep on the real code against the model's prediction",
+   design="5/C01"),
  "C08": dict(
    text="Machine-checked theorems (Props/C08.v) state, for every selector tuple, wiring and assignment, the exact relation each arithmetic/equality/boolean/selection component enforces, uniqueness of returned witnesses, completeness of honest values and locality of arithmetic blocks inside any satisfied system; the Gallina composer model they are about is compared on every run with the real Composer (gates, public-input rows, witness values) on generated programs, and the real snapshots are probed with perturbed assignments evaluated by the proved-sound row evaluator.",
    technique="Coq proof over a Gallina model of the composer + differential correspondence (L3 snapshot tie) + exactness probe on real layouts",
